@@ -43,6 +43,19 @@ CHECKS = {
              'namespaces with logging callables must agree pairwise in text / exception and call log.',
         note='Random abstract templates over every tag and option plus each option alone; expressions from a pool printable in all syntaxes.',
         ref='DESIGN.md section 4 C07'),
+    'C18': dict(engine='DTConc',
+        technique='TLA+ model of threads x compile lock x shared compiled state (DTConc), instantiated with access programs extracted '
+                  'from the real code, enumerated by TLC; every schedule replayed on real threads under a deterministic scheduler; '
+                  'line-granularity schedules (bounded preemptions, PCT) on real threads; recorded access traces validated by TLC (ObsConc)',
+        text='TLC checks Published and LockDiscipline and enumerates all access-level interleavings (2 threads: up to 2-3 preemptions, '
+             '3 threads: 1-2) of the cook protocol and the render-phase accesses, marking schedules in which a thread would find no block '
+             'list or read another render\'s value; every schedule is replayed with real threads parked before each shared access and '
+             'each thread\'s result must be its solo result; at line granularity every single-preemption schedule of compiled '
+             'templates, a systematic sample for compiling ones, two preemptions and PCT-random priorities are run with the same oracle; '
+             'the access traces recorded there must be behaviours of DTConc.',
+        note='Six templates (every block tag, sort_expr / reverse_expr, batches, shared sub-template, restricted expressions, %()s) with '
+             'per-thread namespaces; threads are serialised at source-line granularity by the scheduler (the property\'s granularity).',
+        ref='DESIGN.md section 4 C18'),
     'C11': dict(
         engine='DTBatch',
         technique='TLA+ model (DTBatch) checked by TLC; exported behaviours replayed into dtml-in; '
